@@ -141,6 +141,15 @@ class TArr:
     def __neg__(self):
         return TArr(("neg", self.node), self.shape)
 
+    def __pow__(self, o):
+        return self._bin("pow", o)
+
+    def sum(self, axis=None, **kw):
+        """total of all entries: a real named by the array term (the same array gives the same total)"""
+        if axis is not None or kw:
+            raise OutOfReach("sum over an axis of an abstract array")
+        return NPFloat(z3.Real("sum[" + repr(strip(self.node)) + "]"))
+
     def getitem(self, idx):
         t = idx if isinstance(idx, tuple) else (idx,)
         if any(i is Ellipsis for i in t):
